@@ -37,6 +37,7 @@ async fn open_typed<K: StorageKey + Clone, V: StorageValue>(case: &Case, g: &Geo
         2 => Compression::Lz4,
         _ => Compression::None,
     };
+    let engine = if case.get("comp_real") != 0 { engine.verif_with_compression(compression) } else { engine };
     HybridCacheBuilder::new()
         .with_policy(HybridCachePolicy::WriteOnEviction)
         .memory(case.get("mem_cap").max(1) as usize)
@@ -179,6 +180,44 @@ where
                                 &[],
                             );
                         }
+                    }
+                }
+            }
+        });
+    }
+    // compressed entries: the recorded key length is the encoded key's, and the first `value_len` bytes of the body are
+    // a complete compressed stream of exactly the encoded value of one of the writes of that key
+    if case.get("comp") != 0 && case.get("comp_real") != 0 {
+        simdev::DISK.with(|d| {
+            let d = d.borrow();
+            for w in d.writes.iter() {
+                for e in parser::parse_entries(&w.data) {
+                    if !e.checksum_ok {
+                        continue;
+                    }
+                    let cands: Vec<&(K, V, u64)> = written.iter().filter(|(_, _, h)| *h == e.header.hash).collect();
+                    if cands.is_empty() {
+                        continue;
+                    }
+                    hist::probe("c08_compressed_header_checked");
+                    if e.header.compression as i64 != case.get("comp") {
+                        hist::violation("C08", "recorded-compression-mismatch", format!("entry header records compression {} but the engine was configured with {}", e.header.compression, case.get("comp")), &[]);
+                        continue;
+                    }
+                    let body = &w.data[e.at + parser::ENTRY_HEADER..e.at + parser::ENTRY_HEADER + e.header.value_len];
+                    let ok = cands.iter().any(|(ck, cv, _)| e.header.key_len == ck.enc_len() && parser::decompress_exact(body, e.header.compression, cv.enc_len()).is_some());
+                    if !ok {
+                        hist::violation(
+                            "C08",
+                            "recorded-length-mismatch",
+                            format!(
+                                "compressed entry header records key_len {} value_len {}: the first value_len bytes of the body do not decompress to exactly the encoded value ({} bytes) of a write of that key",
+                                e.header.key_len,
+                                e.header.value_len,
+                                cands.last().map(|c| c.1.enc_len()).unwrap_or(0)
+                            ),
+                            &[("comp", case.get("comp").to_string())],
+                        );
                     }
                 }
             }
